@@ -31,6 +31,7 @@ package ast_api_java
 
 // the pairs of @RequestMapping(...) are read in order: value = sets the URI, method = sets the verb
 //@ spec Unq1(t string) string := len(t) < 2 ? t : t[1:len(t) - 1]
+//@ spec rec VerbAfter(a Node, v0 string, n int) string := n <= 0 ? v0 : ((PairKey(a, n - 1) == "method" && IsVerbName(PairVal(a, n - 1))) ? VerbOf(PairVal(a, n - 1)) : VerbAfter(a, v0, n - 1))
 //@ spec rec UriAfter(a Node, base string, u0 string, n int) string := n <= 0 ? u0 : (PairKey(a, n - 1) == "value" ? base + Unq1(PairVal(a, n - 1)) : UriAfter(a, base, u0, n - 1))
 
 // the annotation is a mapping on a handler method of a controller class
@@ -64,6 +65,11 @@ package ast_api_java
 // any number of pairs, in any order (value before or after method = ...): the path is the one of the last value pair
 //@ ensures isSpringRestController && old(hasEnterClass) && HandlerMapping(ctx) && Child(ctx, "elementValue") == nil && Pairs(ctx) != nil ==>
 //@    currentRestAPI.Uri == UriAfter(ctx, old(baseApiUrl), ReplaceAll(old(baseApiUrl), "\"", ""), NPairs(ctx))
+// @RequestMapping(method = RequestMethod.X, value = "/p") in either order: the verb is the one of the last method pair,
+// whatever pairs follow it
+//@ ensures isSpringRestController && old(hasEnterClass) && HandlerMapping(ctx) && AnnName(ctx) == "RequestMapping" && Pairs(ctx) != nil ==>
+//@    currentRestAPI.HttpMethod == VerbAfter(ctx, "", NPairs(ctx))
+//@ loop 2 invariant currentRestAPI.HttpMethod == VerbAfter(ctx, "", #i)
 //@ loop 1 invariant currentRestAPI.Uri == UriAfter(ctx, baseApiUrl, uriRemoveQuote, #i)
 //@ loop 1 invariant hasEnterRestController && isSpringRestController && restAPIs == old(restAPIs) && currentRestAPI.HttpMethod == VerbOf(annotationName)
 //@ loop 2 invariant currentRestAPI.Uri == UriAfter(ctx, baseApiUrl, uriRemoveQuote, #i)
